@@ -927,6 +927,7 @@ func TestVerifC07Limits(t *testing.T) {
 	var ru syscall.Rusage
 	_ = syscall.Getrusage(syscall.RUSAGE_SELF, &ru)
 	r.Extra("cpu_seconds", float64(ru.Utime.Sec+ru.Stime.Sec)+float64(ru.Utime.Usec+ru.Stime.Usec)/1e6)
+	r.Bound("cpu_seconds_of_this_worker", int(ru.Utime.Sec+ru.Stime.Sec))
 	r.States(states)
 	r.Transitions(trans)
 }
